@@ -32,7 +32,7 @@ var unmodelled = map[string]map[string]bool{
 	"os": {"Link": true, "Symlink": true, "Readlink": true, "Chown": true, "Lchown": true, "Chtimes": true,
 		"DirFS": true, "CopyFS": true, "NewFile": true, "Chdir": true, "SameFile": true, "Pipe": true, "OpenRoot": true, "OpenInRoot": true},
 	"ioutil":   {"ReadFile": true, "WriteFile": true, "ReadDir": true, "TempFile": true, "TempDir": true},
-	"filepath": {"Walk": true, "WalkDir": true, "Glob": true, "EvalSymlinks": true},
+	"filepath": {"Walk": true, "WalkDir": true, "EvalSymlinks": true},
 	"syscall": {"Open": true, "Rename": true, "Unlink": true, "Mkdir": true, "Rmdir": true, "Fsync": true, "Flock": true,
 		"Mmap": true, "Ftruncate": true, "Truncate": true, "Link": true, "Symlink": true, "Fdatasync": true, "Sync": true},
 	"unix": {"Open": true, "Rename": true, "Unlink": true, "Mkdir": true, "Rmdir": true, "Fsync": true, "Flock": true,
@@ -187,7 +187,7 @@ func rewriteFile(rel string, src []byte, doFS, doSync bool) (out []byte, nfs, ns
 			names[n] = filepath.Base(canon)
 		}
 	}
-	osLeft, syncLeft := false, false
+	osLeft, syncLeft, filepathLeft, globbed := false, false, false, false
 	var ferr error
 	ast.Inspect(f, func(n ast.Node) bool {
 		sel, ok := n.(*ast.SelectorExpr)
@@ -209,6 +209,14 @@ func rewriteFile(rel string, src []byte, doFS, doSync bool) (out []byte, nfs, ns
 			}
 		}
 		switch canon {
+		case "filepath":
+			if doFS && sel.Sel.Name == "Glob" {
+				id.Name = "simfs"
+				nfs++
+				globbed = true
+			} else {
+				filepathLeft = true
+			}
 		case "os":
 			if doFS && fsFuncs[sel.Sel.Name] {
 				id.Name = "simfs"
@@ -245,7 +253,17 @@ func rewriteFile(rel string, src []byte, doFS, doSync bool) (out []byte, nfs, ns
 		spec.Name = nil
 	}
 	if nfs > 0 {
-		fix("os", osLeft, "verif/simfs")
+		if _, spec := importName(f, "os"); spec != nil {
+			fix("os", osLeft, "verif/simfs")
+		} else {
+			addImport(f, "verif/simfs")
+		}
+		if globbed && !filepathLeft {
+			// path/filepath was only used for Glob: the import would be unused now
+			if _, spec := importName(f, "path/filepath"); spec != nil {
+				spec.Name = ast.NewIdent("_")
+			}
+		}
 	}
 	if nsync > 0 {
 		fix("sync", syncLeft, "verif/simsync")
